@@ -141,12 +141,26 @@ def run(ctx):
                 dk_jobs.append(dict(base, chunks=[rs, cs], tag="dask",
                                     scheduler="threads" if rng.random() < 0.2 else "synchronous"))
                 meta.append((npi, k, rc, cc, is_small, ras))
+    evaluate(ctx, rng, np_jobs, dk_jobs, meta)
+
+
+def replay(ctx, rec):
+    job = dict(rec["case"]["job"])
+    base = {k: v for k, v in job.items() if k not in ("chunks", "scheduler", "tag")}
+    c = rec["case"]
+    k = None if c["k"] == -1 else c["k"]
+    ras = {"H": c["H"], "W": c["W"]}
+    evaluate(ctx, random.Random(0), [dict(base, tag="numpy")], [job],
+             [(0, k, c["rowcuts"], c["colcuts"], c["H"] * c["W"] <= 12, ras)], compiled=0)
+
+
+def evaluate(ctx, rng, np_jobs, dk_jobs, meta, compiled=None):
     npc = core.run_jobs("prox_worker", np_jobs, env={"NUMBA_DISABLE_JIT": "1"})
     dkc = core.run_jobs("prox_worker", dk_jobs, env={"NUMBA_DISABLE_JIT": "1"})
     # compiled-mode sample of the dask jobs
-    nc = ctx.pick(6, 40)
+    nc = ctx.pick(6, 40) if compiled is None else compiled
     idx = rng.sample(range(len(dk_jobs)), min(nc, len(dk_jobs)))
-    dkc2 = core.run_jobs("prox_worker", [dk_jobs[i] for i in idx], nproc=min(16, len(idx)))
+    dkc2 = core.run_jobs("prox_worker", [dk_jobs[i] for i in idx], nproc=min(16, len(idx))) if idx else []
     allc = [(dkc[i], meta[i], "interp") for i in range(len(dkc))] + [(dkc2[j], meta[i], "compiled") for j, i in enumerate(idx)]
 
     cases, keep = [], []
